@@ -74,6 +74,9 @@ type Concrete struct {
 	MutRegionBits int
 	Unrealizable  string
 
+	TcbSigner, QeSigner Entity // honest signers of the two documents (for drivers that re-sign altered members)
+	HdrRootDER          []byte // root certificate as sent in the issuer-chain headers
+	PckCrlDER, RootCrlDER []byte
 	TcbSpec TcbInfoSpec
 	QeSpec  QeIdentitySpec
 	TcbBody, QeBody []byte
@@ -700,6 +703,8 @@ func Build(w World, p Params) *Concrete {
 	hdrRoot := func(art string) Entity {
 		return Reissue(H.Root, nil, H.Root.Key, win[art].nb, win[art].na, nil)
 	}
+	c.TcbSigner, c.QeSigner = tcbSign, qeSign
+	c.HdrRootDER = hdrRoot("tcbRoot").DER
 	build := func(doc string, memberKey string, member []byte, goodMember []byte, signer Entity, hdrName string, rootArt string,
 		signerDim, overDim, alterDim, extraDim, hdrDim, metaDim string) (Response, []byte, []byte) {
 		root := hdrRoot(rootArt)
@@ -912,6 +917,7 @@ func Build(w World, p Params) *Concrete {
 	default:
 		panic("bad rootCrlSigner")
 	}
+	c.PckCrlDER, c.RootCrlDER = pckCrl, rootCrl
 	crlSignerCert := Reissue(H.Inter, H.Root.Cert, H.Root.Key, win["pckCrlSigner"].nb, win["pckCrlSigner"].na, nil)
 	crlRootCert := hdrRoot("pckCrlRoot")
 	pckHdr := map[string][]string{HdrPckCrl: {IssuerChainHeader(crlSignerCert.DER, crlRootCert.DER)}}
